@@ -6,7 +6,7 @@ import expstage
 import matrix
 import vlib
 
-NONCOPY = ["string", "tuple", "vec", "nc_vec", "map", "struct", "enum", "nc_tuple", "option"]
+NONCOPY = ["string", "tuple", "vec", "into_iter", "nc_vec", "map", "struct", "enum", "nc_tuple", "option"]
 WITNESS = {"id": "C09-closure-moves",
            "what": "a closure pattern at the root (or after a field operation) receives the asserted expression by value: "
                    "`assert_struct!(s, |x| x.len() > 0); drop(s)` does not compile for a String (E0382)"}
@@ -24,9 +24,9 @@ def run(res):
     kf = {f["id"] for f in vlib.load_known_findings()["findings"]}
 
     def compute():
-        cells = [c for c in matrix.cells(targets=NONCOPY, mismatches=False)]
+        cells = [c for c in matrix.cells(targets=NONCOPY, mismatches=False, extra_positions=("root_mut_ref",))]
         if res.tier == "quick":
-            cells = [c for i, c in enumerate(cells) if c[2] in ("root", "root_via_macro", "root_call", "root_field_expr", "root_deref", "root_ref", "field", "some", "slice_elem", "depth3") or i % 4 == 0]
+            cells = [c for i, c in enumerate(cells) if c[2] in ("root", "root_mut_ref", "root_via_macro", "root_call", "root_field_expr", "root_deref", "root_ref", "field", "some", "slice_elem", "depth3") or i % 4 == 0]
         srcs = []
         for (t, f, pos, pat, m) in cells:
             srcs.append(matrix.program(t, pos, pat, reuse=False))
